@@ -239,9 +239,88 @@ void vf_harness()
                 canaries=[{"fn": "Db::getMultipleRanksActive", "rx": r"getRanksActive\(nbgh, jvar, useSel, useVerr\)", "rp": "getRanksActive(nbgh, jvar, useSel, false)", "expect": r"assertion"}])
 
 
+def unit_simtub_minmax():
+    """conditional turning bands: the extent of the bands is taken over the samples that take part in the calculation"""
+    from tools.vf import Fn, Unit
+    NS, NB = 3, 2
+    pre = """
+typedef _Bool bool;
+#define true 1
+#define false 0
+#define NS %d
+#define NB %d
+#define TEST 1.234e30
+#define TEST_COMP 1.000e30
+#define FFFF(x) ((x) != (x) || (x) > TEST_COMP)
+int g_used[NS];                       /* ghost: sample whose position entered the extent of a band */
+double _field; int _npointSimulated; double G_tmin[NB], G_tmax[NB];
+static int getNDirs(void) { return NB; }
+static double _getCodirTmin(int ibs) { return G_tmin[ibs]; } static double _getCodirTmax(int ibs) { return G_tmax[ibs]; }
+static void _setCodirTmin(int ibs, double t) { G_tmin[ibs] = t; } static void _setCodirTmax(int ibs, double t) { G_tmax[ibs] = t; }
+static bool VF_isGrid(void) { return 0; }
+static int VF_getSampleNumber(void) { return NS; }
+static bool VF_isActive(int iech) { return W_active[iech]; }
+static double VF_projectPoint(int ibs, int iech) { g_used[iech] = 1; return W_t[iech * NB + ibs]; }
+static double VF_projectGrid(int ibs, int ix, int iy, int iz) { return 0.; }
+static int VF_getNDim(void) { return 2; } static int VF_getNX(int i) { return 1; }
+/* accessors a correct _minmax may consult: coordinates (undefined for the samples flagged W_nocoord), variables (all undefined for W_novalue) */
+static double VF_getCoordinate(int iech, int idim) { return (W_nocoord[iech] && idim == W_which[iech]) ? TEST : 1.; }
+static int VF_getLocNumberZ(void) { return 2; }
+static double VF_getZVariable(int iech, int ivar) { return W_novalue[iech] ? TEST : ((ivar == W_which[iech]) ? 1. : TEST); }
+"""  % (NS, NB)
+    f = Fn("CalcSimuTurningBands::_minmax", "src/Simulation/CalcSimuTurningBands.cpp", r"^void CalcSimuTurningBands::_minmax\(const Db \*db(, bool flagData)?\)\s*$", csig="void _minmax(int db, bool flagData)",
+           rewrites=[(r"db == nullptr", "db == 0", 1), (r"db->isGrid\(\)", "VF_isGrid()", 1), (r"const DbGrid\* dbgrid = dynamic_cast<const DbGrid\*>\(db\);", "int dbgrid = db;", 1),
+                     (r"dbgrid->getNDim\(\)", "VF_getNDim()", None), (r"dbgrid->getNX\((\d)\)", r"VF_getNX(\1)", None),
+                     (r"_codirs\[ibs\]\.projectGrid\(dbgrid, ", "VF_projectGrid(ibs, ", 1), (r"_codirs\[ibs\]\.projectPoint\(db, iech\)", "VF_projectPoint(ibs, iech)", 1),
+                     (r"db->getSampleNumber\(\)", "VF_getSampleNumber()", None), (r"db->isActive\(iech\)", "VF_isActive(iech)", 1),
+                     (r"db->getNDim\(\)", "VF_getNDim()", "opt"), (r"db->getLocNumber\(ELoc::Z\)", "VF_getLocNumberZ()", "opt"),
+                     (r"db->getCoordinate\(iech, idim\)", "VF_getCoordinate(iech, idim)", "opt"), (r"db->getZVariable\(iech, ivar\)", "VF_getZVariable(iech, ivar)", "opt")])
+    h = """
+void vf_harness(void)
+{
+  vf_havoc_inputs();
+  for (int k = 0; k < NS; k++) g_used[k] = 0;
+  for (int b = 0; b < NB; b++) { G_tmin[b] = 1.e30; G_tmax[b] = -1.e30; }
+  _field = 0.; _npointSimulated = 0;
+  for (int k = 0; k < NS; k++) __CPROVER_assume(0 <= W_which[k] && W_which[k] < 2);
+  _minmax(1, 1);                      /* the conditioning data */
+  for (int k = 0; k < NS; k++)
+  {
+    if (W_active[k] && !W_nocoord[k] && !W_novalue[k]) __CPROVER_assert(g_used[k], "a datum that takes part in the calculation enters the extent of the bands");
+    if (!W_active[k]) __CPROVER_assert(!g_used[k], "a sample masked by the selection does not enter the extent of the bands");
+    if (W_nocoord[k]) __CPROVER_assert(!g_used[k], "a sample with an undefined coordinate does not enter the extent of the bands");
+    if (W_novalue[k]) __CPROVER_assert(!g_used[k], "a datum whose variables are all undefined does not enter the extent of the bands (as if it had been removed)");
+  }
+  VF_REACH();
+}
+"""
+    return Unit("C05.simtub.minmax", [f], prelude=pre, harness=h, pre_inputs="typedef _Bool bool;\n", unwind=NS + 2, checks=["--bounds-check", "--pointer-check"], backends=("minisat", "cadical"), timeout=300,
+                inputs=[("bool", "W_active", str(NS)), ("bool", "W_nocoord", str(NS)), ("bool", "W_novalue", str(NS)), ("int", "W_which", str(NS)), ("double", "W_t", str(NS * NB))],
+                bounded="%d samples, %d bands (unwinding assertions)" % (NS, NB),
+                claim=("CalcSimuTurningBands::_minmax on the conditioning data (real text): only the samples that take part in the calculation enter the extent of the bands, from which the "
+                       "non-conditional simulation is built: not the masked samples, not those with an undefined coordinate, not the data without any defined variable; all the others do"),
+                assumptions=["projection of a sample on a band = arbitrary table; coordinates / variables of a sample: one arbitrary item defined or undefined per sample (2 dimensions, 2 variables)"],
+                canaries=[{"fn": "CalcSimuTurningBands::_minmax", "rx": r"if \(!db->isActive\(iech\)\) continue;", "rp": "if (!db->isActive(iech)) { }", "expect": r"assertion"}])
+
+
 def units(tier):
+    import copy
+    from specs import C13
     nmax = 5 if tier == "quick" else 8
-    return [unit_selection(), unit_ranks_active(nmax), unit_flagdefine(), unit_multiple_ranks()]
+    out = [unit_selection(), unit_ranks_active(nmax), unit_flagdefine(), unit_multiple_ranks()]
+    # final data-to-target assignment of the conditional turning bands (units shared with C13): a masked datum is never copied to a target, a masked target is left untouched
+    for g in (False, True):
+        u = copy.copy(C13.unit_data_to_target(2, 1 if tier == "quick" else 2, grid=g))
+        u.name = "C05.simtub.data_to_target.%s" % ("grid" if g else "points")
+        u.claim = "[a masked datum is never copied onto a target, a masked target is left untouched] " + u.claim
+        out.append(u)
+    from specs import C04
+    u = copy.copy(C04.unit_migrate_ball())
+    out.append(unit_simtub_minmax())
+    u.name = "C05.migrate.ball_tree"
+    u.claim = "[a sample masked by the selection is never the source of a migrated value, also through the ball tree] " + u.claim
+    out.append(u)
+    return out
 
 
 META = {
@@ -254,7 +333,7 @@ META = {
 }
 MANIFEST = {
     "category": "other",
-    "text": "Contracts on the selection predicate, on Db::getRanksActive (exactly the unmasked, defined candidates, in order), on Db::getMultipleRanksActive (each list from the requested variable) and on the per-equation flags of the kriging system (bounded).",
+    "text": "Contracts on the selection predicate, on Db::getRanksActive (exactly the unmasked, defined candidates, in order), on Db::getMultipleRanksActive (each list from the requested variable) and on the per-equation flags of the kriging system (bounded); bounded units on the conditional turning bands (extent of the bands, data-to-target assignment) and on the ball-tree migration: masked / undefined / unlocated samples never contribute.",
     "note": "Only the listed kernels; no whole-library non-interference claim.",
     "design_ref": "DESIGN.md 3 C05",
 }
